@@ -152,7 +152,7 @@ sweep(const std::string &profile, const std::string &out, int shard, int nshards
     Outcome oc;
     lockinterp::run_case(c, cfg, oc, &g_phase);
     C.evaluations++;
-    C.steps += vsched::stats().steps;
+    C.steps = vsched::total_steps();
     if (oc.contended || oc.conv_raced || oc.validate_raced || oc.prep_seen_x || oc.prep_fallback) {
       C.nontrivial++;
       C.nontrivial_hashes.insert(wk::fnv(g_curtext));
@@ -287,7 +287,7 @@ main(int argc, char **argv)
     lockinterp::run_case(c, cfg, oc, &g_phase);
     C.evaluations++;
     C.next_index = i + 1;
-    C.steps += vsched::stats().steps;
+    C.steps = vsched::total_steps();
     C.skipped_ops += oc.skipped;
     C.excluded_known += oc.excluded_known;
     C.executed_ops += oc.executed;
